@@ -287,3 +287,60 @@ def make_single_schema_workspace(d):
     t = t.replace("  - schema: vs_script\n", "")
     open(p, "w", encoding="utf-8").write(t)
     return d
+
+
+# ------------------------------------------------------------------ commit history (lean/RimeModel/C01/History.lean)
+def gen_history_ops(rng, n):
+    """call sequences for the real CommitHistory and its model: records, keys, compositions of many segments (translated
+    and untranslated mixed, equal and different candidate types, confirmed or not), sized around kMaxRecords = 20"""
+    types = [b"phrase", b"p", b"raw", b"punct", b"thru", b""]
+    ops = []
+    for _ in range(n):
+        r = rng.random()
+        if r < 0.05:
+            ops.append("reset")
+        elif r < 0.2:
+            ops.append("rec %s %s" % (hx(rng.choice(types)), hx(rng.choice([b"", b"x", "字".encode(), b"ab"]))))
+        elif r < 0.45:
+            k = rng.choice([0x20, 0x7e, 0x7f, 0x1f, 97, 49, 0xff08, 0xff0d, 0xff1b, 0, 0xffffff, 65])
+            ops.append("key %d %d" % (k, rng.choice([0, 0, 0, 1, 4, 1 << 30])))
+        else:
+            nseg = rng.choice([0, 1, 2, 3, 5, 19, 20, 21, 22, 23, 41, 45])
+            inp = bytes(rng.choice(b"ab1 '") for _ in range(rng.choice([0, 1, nseg, 2 * nseg, 2 * nseg + 3])))
+            segs, pos = [], 0
+            style = rng.choice(["alt", "rawrun", "mixed", "cands"])
+            for i in range(nseg):
+                ln = rng.choice([0, 1, 1, 2])
+                start, stop = pos, pos + ln
+                if rng.random() < 0.04:
+                    start, stop = rng.choice([(pos + 1, pos), (len(inp) + 1, len(inp) + 2), (pos, pos)])   # odd geometry
+                if style == "alt":
+                    cand = i % 2 == 0 or i == nseg - 1
+                elif style == "rawrun":
+                    cand = i == 0 or i == nseg - 1
+                elif style == "cands":
+                    cand = True
+                else:
+                    cand = rng.random() < 0.5
+                if cand:
+                    ty = rng.choice(types[:2]) if style != "mixed" else rng.choice(types)
+                    tx = rng.choice([b"A", "字".encode(), b"", b"xy"])
+                    conf = 1 if rng.random() < 0.15 else 0
+                    segs.append("%d,%d,%d,%s,%s,%d" % (start, stop, conf, hx(ty) if ty else "-", hx(tx), rng.choice([stop, stop, start, stop + 1])))
+                else:
+                    segs.append("%d,%d,%d,~,-,0" % (start, stop, rng.randrange(2)))
+                pos = stop if stop >= pos else pos
+            ops.append("comp %s %s" % (hx(inp), ";".join(segs) if segs else "-"))
+    return ops
+
+
+def history_directed():
+    """the shapes of fix 0abeed3: a candidate, n untranslated segments, a candidate of the same type — n around the bound"""
+    out = []
+    for n in (0, 1, 18, 19, 20, 21, 25):
+        segs = ["0,1,0,%s,%s,1" % (hx(b"p"), hx(b"A"))]
+        segs += ["%d,%d,0,~,-,0" % (1 + 2 * i, 2 + 2 * i) for i in range(n)]
+        segs += ["%d,%d,0,%s,%s,%d" % (1 + 2 * n, 2 + 2 * n, hx(b"p"), hx(b"B"), 2 + 2 * n)]
+        out += ["reset", "comp %s %s" % (hx(b"a1" * (n + 1)), ";".join(segs))]
+        out += ["rec %s %s" % (hx(b"raw"), hx(b"x"))] * 3 + ["comp %s %s" % (hx(b"a1" * (n + 1)), ";".join(segs))]
+    return out
